@@ -8,7 +8,7 @@ RULE = ("the whole Schnorr proof space (public, commitment, challenge, response)
         "proofs (each element/exponent replaced by neighbour, identity, generator), simulated transcripts with chosen "
         "challenge, one-equation CP proofs, statement/base swaps, label variants (whitespace / NUL appended or prepended, "
         "trimmed, truncated, lossy UTF-8, case-folded, SHA-512/SHA-256 digests, doubled) of empty / ASCII / padded / non-UTF-8 / "
-        "65- and 140-byte labels, hash-consistent proofs of false statements made by "
+        "65- and 140-byte labels, in-memory proofs with a non-canonical challenge c+q / c+2q, hash-consistent proofs of false statements made by "
         "the stock prover (publics perturbed so that weighted products of the two CP equations still balance, or one "
         "public alone); accepted mutants are failing inputs at >=62 bits")
 
@@ -75,6 +75,12 @@ def run(env):
                     if v == pf[i]: continue
                     m = list(pf); m[i] = v
                     add("schnorr_verify", [a[1], a[2], m, a[3]], "mut-proof-field")
+            # in-memory proofs with a NON-canonical challenge c + q, c + 2q (constructible with the non-reducing
+            # Exponent::add / mul; never decodable from bytes): the challenge is not the hash, so they must be rejected
+            for kq in (1, 2):
+                m = list(pf); m[1] = str(int(pf[1]) + kq * q_)
+                add("schnorr_verify", [a[1], a[2], m, a[3]], "noncanonical-challenge")
+                st2[-1]["_must_reject"] = True
             for v in mut_elems(ctx, a[1]):
                 if v != a[1]: add("schnorr_verify", [v, a[2], pf, a[3]], "mut-public")
             add("schnorr_verify", [a[1], str(pow(g_, 2, P_)), pf, a[3]], "mut-base")
@@ -98,6 +104,10 @@ def run(env):
                         add("cp_verify", [aa[1], aa[2], aa[3], aa[4], pf, aa[5]], "mut-statement")
             for lv in (label_variants(a[5]) if not ctx.endswith(":2048") else [a[5] + "ff"]):
                 add("cp_verify", [a[1], a[2], a[3], a[4], pf, lv], "mut-label")
+            for kq in (1, 2):
+                m = list(pf); m[2] = str(int(pf[2]) + kq * q_)
+                add("cp_verify", [a[1], a[2], a[3], a[4], m, a[5]], "noncanonical-challenge")
+                st2[-1]["_must_reject"] = True
             # false statement, only equation 1 holds: public2 replaced by g2^(x+1)
             y2 = (int(a[2]) * int(a[4])) % P_
             add("cp_verify", [a[1], str(y2), a[3], a[4], pf, a[5]], "one-equation")
